@@ -120,14 +120,18 @@ class Encoder:
                 if sid is not None:
                     self.shared[sid] = i
 
+        # singletons: a reader accepts FLAG_REF on their type byte too, but gives them NO slot in the reference table
+        sflag = bool(self.refs_ok and self.extra_flagrefs and k in ("N", "b", "E", "X") and self.ch.pick(2) == 1)
+        if sflag:
+            self.features.add("flagref-on-singleton")
         if k == "N":
-            self.code("N")
+            self.code("N", sflag)
         elif k == "b":
-            self.code("T" if t[1] else "F")
+            self.code("T" if t[1] else "F", sflag)
         elif k == "E":
-            self.code(".")
+            self.code(".", sflag)
         elif k == "X":
-            self.code("S")
+            self.code("S", sflag)
         elif k == "i":
             self.w_int(int(t[1], 0), flag)
             reserve()
